@@ -348,11 +348,18 @@ func (c15) Exec(seed int64, i int, tier string) Record {
 	r := CaseRng(seed, "C15", i)
 	o := DefaultOpts()
 	o.ErrBias = 15
-	singleOnly := r.Chance(30)
-	doc := GenDoc(r, o, 0)
 	plain := Config(false, nil)
+	var doc interface{}
 	var p *Path
-	for try := 0; try < 6; try++ {
+	long := i%40 == 7
+	if long {
+		doc, p = c15LongCase(r)
+	}
+	singleOnly := !long && r.Chance(30)
+	if !long {
+		doc = GenDoc(r, o, 0)
+	}
+	for try := 0; try < 6 && !long; try++ {
 		if singleOnly {
 			p = &Path{Head: HeadRoot}
 			for len(p.Steps) == 0 {
@@ -383,6 +390,9 @@ func (c15) Exec(seed int64, i int, tier string) Record {
 	rec := Record{Text: text, Doc: JSONText(doc), Info: map[string]interface{}{}, Tags: stepTags(p)}
 	if jn {
 		rec.Tags = append(rec.Tags, "decode:jnum")
+	}
+	if long {
+		rec.Tags = append(rec.Tags, "class:long-path", fmt.Sprintf("long-path:steps-%d0+", len(p.Steps)/10))
 	}
 	out := Run(text, doc, &plain)
 	if !out.OK && (out.ErrKind == "syntax" || out.ErrKind == "argument" || out.ErrKind == "notfound" || out.ErrKind == "notsupported") {
@@ -520,9 +530,139 @@ func (c15) Exec(seed int64, i int, tier string) Record {
 	if w.nFilter > 0 {
 		rec.Tags = append(rec.Tags, "walk:through-filter")
 	}
+	if long {
+		if (deepest-1)/2+1 > 65 {
+			rec.Tags = append(rec.Tags, "long-path:deepest-failure-beyond-step-65")
+		}
+		rec.Key = "long/" + out.ErrKind + "/" + fmt.Sprint(deepest, len(allowed) == 1, jn)
+		return rec
+	}
 	rec.Tags = append(rec.Tags, fmt.Sprintf("deepest-at:%d/%d", (deepest-1)/2+1, len(p.Steps)+len(p.Fns)))
 	rec.Key = shapeKey(p) + "/" + out.ErrKind + "/" + fmt.Sprint(deepest, len(allowed) == 1, jn)
 	return rec
+}
+
+// c15LongCase (one case in 40): a path of 70..120 steps, all of them name / single-index steps except one
+// multi-branch step (wildcard, union, slice, multi-name list, filter) over 2..6 branches; every branch is a
+// chain the remaining steps follow down to its own depth, where it breaks (a scalar, null, an empty or
+// unrelated container: type mismatch or missing member) — most breaks lie beyond step 65, at different depths,
+// in no particular order; now and then one branch goes all the way.
+func c15LongCase(r *Rng) (interface{}, *Path) {
+	n := r.Range(70, 120)
+	steps := LongSteps(r, n)
+	var b int
+	switch r.Weighted([]int{60, 25, 15}) {
+	case 0:
+		b = r.Range(0, 3)
+	case 1:
+		b = r.Range(4, 40)
+	default:
+		b = r.Range(60, n-3)
+	}
+	nb := r.Range(2, 6)
+	rest := steps[b+1:]
+	subs := make([]interface{}, nb)
+	for k := range subs {
+		var upto int
+		switch {
+		case r.Chance(4):
+			upto = len(rest) // this branch succeeds
+		case len(rest) > 2 && r.Chance(75):
+			lo := 66 - b
+			if lo < 0 {
+				lo = 0
+			}
+			if lo > len(rest)-1 {
+				lo = len(rest) - 1
+			}
+			upto = r.Range(lo, len(rest)-1) // breaks beyond step 65
+		default:
+			upto = r.Range(0, len(rest)-1)
+		}
+		var leaf interface{}
+		switch r.Weighted([]int{35, 10, 20, 15, 20}) {
+		case 0:
+			leaf = GenScalar(r)
+		case 1:
+			leaf = nil
+		case 2:
+			leaf = map[string]interface{}{}
+			if r.Chance(60) {
+				leaf = map[string]interface{}{"zz": GenScalar(r)}
+			}
+		case 3:
+			leaf = []interface{}{}
+		default:
+			leaf = "end"
+		}
+		subs[k] = DeepDoc(r, rest, upto, leaf)
+	}
+	var container interface{}
+	var bs *Step
+	if r.Chance(55) {
+		container = subs
+		switch r.Weighted([]int{35, 30, 15, 20}) {
+		case 0:
+			bs = &Step{Kind: StWild, Bracket: r.Chance(60)}
+		case 1:
+			idx := make([]Sub, nb)
+			for k := range idx {
+				idx[k] = Sub{Kind: SubIdx, N: int64(k)}
+				if r.Chance(25) {
+					idx[k].N = int64(k - nb)
+				}
+			}
+			r.Shuffle(nb, func(x, y int) { idx[x], idx[y] = idx[y], idx[x] })
+			if r.Chance(30) {
+				idx = append(idx, Sub{Kind: SubIdx, N: int64(r.Intn(nb))})
+			}
+			bs = &Step{Kind: StUnion, Subs: idx}
+		case 2:
+			sl := Sub{Kind: SubSlice}
+			if r.Chance(50) {
+				t := int64(-1)
+				sl.T = &t
+			}
+			bs = &Step{Kind: StUnion, Subs: []Sub{sl}}
+		default:
+			bs = &Step{Kind: StFilter, Q: &Query{Kind: QExist, P: &Path{Head: HeadCur}}}
+		}
+	} else {
+		m := map[string]interface{}{}
+		keys := append([]string{}, BaseKeys...)
+		keys = append(keys, "e", "f")
+		r.Shuffle(len(keys), func(x, y int) { keys[x], keys[y] = keys[y], keys[x] })
+		for k := range subs {
+			m[keys[k]] = subs[k]
+		}
+		container = m
+		switch r.Weighted([]int{40, 40, 20}) {
+		case 0:
+			bs = &Step{Kind: StWild, Bracket: r.Chance(40)}
+		case 1:
+			names := make([]Name, 0, nb+2)
+			for k := 0; k < nb; k++ {
+				names = append(names, Name{Key: keys[k]})
+			}
+			if r.Chance(40) {
+				names = append(names, Name{Key: "none"})
+			}
+			r.Shuffle(len(names), func(x, y int) { names[x], names[y] = names[y], names[x] })
+			if len(names) < 2 {
+				names = append(names, Name{Key: "none"})
+			}
+			bs = &Step{Kind: StMulti, Names: names}
+		default:
+			bs = &Step{Kind: StFilter, Q: &Query{Kind: QExist, P: &Path{Head: HeadCur}}}
+		}
+	}
+	doc := DeepDoc(r, steps, b, container)
+	all := append(append(append([]*Step{}, steps[:b]...), bs), rest...)
+	p := &Path{Head: HeadRoot, Steps: all}
+	if r.Chance(10) {
+		p.Fns = []Fn{{Name: FilterFns[r.Weighted([]int{40, 30, 30, 0, 0})]}}
+	}
+	return doc, p
 }
 
 func c15List(fs []c15Fail) string {
